@@ -381,7 +381,10 @@ extern "C" void htp_verif_probe(const char *site, htp_connp_t *connp, long a, lo
 // ------------------------------------------------------------------------------------------------
 // callbacks registered with libhtp
 
+struct TickFreeze { uint64_t t0; TickFreeze() : t0(g_seams.ticks) {} ~TickFreeze() { g_seams.ticks = t0; } };   // work done on behalf of the harness is not libhtp's
+
 static int tx_cb(int hook, htp_tx_t *tx) {
+    TickFreeze tf;
     Exec *ex = g_ex;
     TxRec *r = on_event(ex, hook, tx);
     if (hook == HK_TRANSACTION_COMPLETE && r) {
@@ -410,6 +413,7 @@ static void touch(Exec *ex, const unsigned char *data, size_t len) {
 }
 
 static int data_cb(int hook, htp_tx_data_t *d) {
+    TickFreeze tf;
     Exec *ex = g_ex;
     htp_tx_t *tx = d ? d->tx : nullptr;
     bool marker = d && d->data == NULL && d->len == 0 && (hook == HK_REQUEST_BODY_DATA || hook == HK_RESPONSE_BODY_DATA || hook == HK_TX_REQUEST_BODY_DATA || hook == HK_TX_RESPONSE_BODY_DATA);
@@ -457,6 +461,7 @@ static int data_cb(int hook, htp_tx_data_t *d) {
 }
 
 static int file_cb(htp_file_data_t *d) {
+    TickFreeze tf;
     Exec *ex = g_ex;
     ex->res->st.cbs++;
     if (ex->cur_call) ex->cur_call->cbs++;
@@ -475,6 +480,7 @@ static int file_cb(htp_file_data_t *d) {
 }
 
 static int log_cb(htp_log_t *l) {
+    TickFreeze tf;
     Exec *ex = g_ex;
     if (l) {
         if (l->msg) { size_t n = strlen(l->msg); (void) fnv_of(l->msg, n); }   // touch
@@ -631,6 +637,7 @@ static int do_call(Exec *ex, ConnState &c, int dir, const Chunk &ch, long &consu
     cr.in_state = state_id_in(cp); cr.out_state = state_id_out(cp);
     cr.in_status_before = cp->in_status; cr.out_status_before = cp->out_status;
     cr.buffered_before = buffered_for(cp, dir);
+    { htp_tx_t *cur = dir == 0 ? cp->in_tx : cp->out_tx; cr.msg_bytes_before = 0; if (cur) { TxRec &tr = rec_for(ex, cur); cr.msg_bytes_before = (long) (R.conns[c.idx].offered[dir] - tr.offered_at_start[dir]); } }
     int status_before = dir == 0 ? cp->in_status : cp->out_status;
     bool sticky_before = R.conns[c.idx].sticky[dir] != 0;
     int sticky_code = R.conns[c.idx].sticky[dir];
